@@ -441,7 +441,7 @@ func c09BoundaryMsg(cs *h.Case, st *c09Static) (*dynamicpb.Message, int, string)
 
 func runC09(c *h.Ctx) {
 	c.Run("messages", c.N(8000, 300000), func(cs *h.Case) {
-		sc := gen.GenPSchema(cs.R, gen.PCfg{MaxDepth: 2, MaxFields: 6, Nested: cs.R.Bool(), Enums: true, BigNums: true, JSONNames: true, Optionals: cs.R.Bool()})
+		sc := gen.GenPSchema(cs.R, gen.PCfg{Unpacked: true, MaxDepth: 2, MaxFields: 6, Nested: cs.R.Bool(), Enums: true, BigNums: true, JSONNames: true, Optionals: cs.R.Bool()})
 		pc, err := PCompile(sc)
 		if err != nil {
 			cs.Cover("oracle_schema_rejected")
